@@ -50,33 +50,53 @@ Definition aset {A} (k : N) (v : A) (l : list (N * A)) : list (N * A) := (k, v) 
 (* ---------------------------------------------------------------- *)
 (* configuration: NICInfo + Config of (Config).New *)
 
+(* the parameters of the two dhcpSubnet values a handler holds (what the lease file stores of them):
+   LAN (an address of it and the prefix length), default gateway, DNS server, DHCP server id *)
+Record subcfg := mkSub {
+  f_addr1 : ip; f_bits1 : N; f_gw1 : ip; f_dns1 : ip; f_srv1 : ip;      (* net1, home *)
+  f_addr2 : ip; f_bits2 : N; f_gw2 : ip; f_dns2 : ip; f_srv2 : ip       (* net2, netfilter *)
+}.
+
 Record cfg := mkCfg {
   c_mode : N;                 (* 1 primary, 2 secondary, 3 secondary-nice *)
   c_hostip : ip; c_hostmac : mac;
   c_routerip : ip; c_routermac : mac;
   c_homeip : ip; c_homebits : N;      (* NICInfo.HomeLAN4 *)
   c_nfip : ip; c_nfbits : N;          (* Config.NetfilterIP *)
-  c_dns : ip                          (* Config.DNSServer *)
+  c_dns : ip;                         (* Config.DNSServer *)
+  c_sub : subcfg                      (* the subnets in force: built by New from the fields above, or kept from the lease file *)
 }.
+
+Definition cloudflare_family1 : ip := 16843011.   (* 1.1.1.3 *)
+
+(* homeSubnet / netfilterSubnet of (Config).New *)
+Definition wanted (c : cfg) : subcfg :=
+  mkSub (c_homeip c) (c_homebits c) (c_routerip c) (c_dns c) (c_hostip c)
+        (c_nfip c) (c_nfbits c) (c_nfip c) cloudflare_family1 (c_hostip c).
+Definition set_sub (c : cfg) (f : subcfg) : cfg :=
+  mkCfg (c_mode c) (c_hostip c) (c_hostmac c) (c_routerip c) (c_routermac c) (c_homeip c) (c_homebits c)
+        (c_nfip c) (c_nfbits c) (c_dns c) f.
+(* a handler built with no lease file *)
+Definition fresh_cfg (md hip hmac rip rmac home hb nf nb dns : N) : cfg :=
+  let c0 := mkCfg md hip hmac rip rmac home hb nf nb dns (mkSub 0 0 0 0 0 0 0 0 0 0) in set_sub c0 (wanted c0).
 
 Definition psize (bits : N) : N := 2 ^ (32 - bits).
 Definition pnet (a : ip) (bits : N) : ip := (a / psize bits) * psize bits.      (* Prefix.Masked().Addr() *)
 Definition pcontains (a : ip) (bits : N) (x : ip) : bool := x / psize bits =? a / psize bits.
 Definition pmask (bits : N) : N := 4294967296 - psize bits.
 
-Definition cloudflare_family1 : ip := 16843011.   (* 1.1.1.3 *)
 Definition ip_bcast : ip := 4294967295.
 Definition mac_bcast : mac := 281474976710655.
 Definition lease_secs : Z := 14400%Z.              (* 4 * time.Hour *)
 Definition zero_time : Z := (-70000000000)%Z.      (* time.Time{}: before every clock value *)
 
 (* the two dhcpSubnet values; b = false is net1 (home), b = true is net2 (netfilter) *)
-Definition n_bits (c : cfg) (b : bool) : N := if b then c_nfbits c else c_homebits c.
+Definition n_bits (c : cfg) (b : bool) : N := if b then f_bits2 (c_sub c) else f_bits1 (c_sub c).
 Definition n_lan (c : cfg) (b : bool) : ip :=
-  if b then pnet (c_nfip c) (c_nfbits c) else pnet (c_homeip c) (c_homebits c).
-Definition n_gw (c : cfg) (b : bool) : ip := if b then c_nfip c else c_routerip c.
-Definition n_dns (c : cfg) (b : bool) : ip := if b then cloudflare_family1 else c_dns c.
-Definition n_server (c : cfg) (b : bool) : ip := c_hostip c.
+  if b then pnet (f_addr2 (c_sub c)) (f_bits2 (c_sub c)) else pnet (f_addr1 (c_sub c)) (f_bits1 (c_sub c)).
+Definition n_gw (c : cfg) (b : bool) : ip := if b then f_gw2 (c_sub c) else f_gw1 (c_sub c).
+Definition n_dns (c : cfg) (b : bool) : ip := if b then f_dns2 (c_sub c) else f_dns1 (c_sub c).
+Definition n_server (c : cfg) (b : bool) : ip := if b then f_srv2 (c_sub c) else f_srv1 (c_sub c).
 Definition n_first (c : cfg) (b : bool) : ip := n_lan c b + 1.
 Definition n_bcast (c : cfg) (b : bool) : ip := n_lan c b + psize (n_bits c b) - 1.
 Definition n_contains (c : cfg) (b : bool) (x : ip) : bool := pcontains (n_lan c b) (n_bits c b) x.
@@ -200,15 +220,20 @@ Definition put (s : dstate) (l : lease) : dstate := set_tbl s (tset l (tbl s)).
    function of the state, so the model starts the cursor at FirstIP. *)
 Definition init (c : cfg) : dstate := mkSt [] (n_first c false) (n_first c true) (sess_init c).
 
-(* (Config).New when a lease file written under other prefix lengths (hb home, nb netfilter; same
-   addresses, empty lease list) exists: loadConfig rebuilds both subnets from the file; configChanged
-   (as repaired by e01fd08) compares the whole masked prefix, gateway, DNS and server id, so the
-   loaded subnets are kept only when the prefix lengths coincide as well. *)
-Definition loaded_cfg (c : cfg) (hb nb : N) : cfg :=
-  if (pnet (c_homeip c) hb =? pnet (c_homeip c) (c_homebits c)) && (hb =? c_homebits c)
-     && (pnet (c_nfip c) nb =? pnet (c_nfip c) (c_nfbits c)) && (nb =? c_nfbits c)
-  then mkCfg (c_mode c) (c_hostip c) (c_hostmac c) (c_routerip c) (c_routermac c) (c_homeip c) hb (c_nfip c) nb (c_dns c)
-  else c.
+(* (Config).New on an existing lease file.  loadConfig rebuilds both subnets from the FILE's values
+   (their option maps are built there, once); configChanged compares, per subnet, the masked LAN
+   prefix, DefaultGW, DNSServer and DHCPServer of the configuration with the file's (Duration and
+   FirstIP are zero in the configuration and not compared); if anything differs New resets: both
+   subnets are rebuilt from the configuration and the lease table is emptied.  Mode, MAC addresses
+   and the NIC data are never read from the file. *)
+Definition sub_changed (w f : subcfg) : bool :=
+  negb ((pnet (f_addr1 w) (f_bits1 w) =? pnet (f_addr1 f) (f_bits1 f)) && (f_bits1 w =? f_bits1 f)
+        && (f_gw1 w =? f_gw1 f) && (f_dns1 w =? f_dns1 f) && (f_srv1 w =? f_srv1 f)
+        && (pnet (f_addr2 w) (f_bits2 w) =? pnet (f_addr2 f) (f_bits2 f)) && (f_bits2 w =? f_bits2 f)
+        && (f_gw2 w =? f_gw2 f) && (f_dns2 w =? f_dns2 f) && (f_srv2 w =? f_srv2 f)).
+(* file = the subnets the previous handler held; cB = the new configuration *)
+Definition loaded_cfg (file : subcfg) (cB : cfg) : cfg :=
+  set_sub cB (if sub_changed (wanted cB) file then wanted cB else file).
 
 (* findByIP: first lease in map order whose Addr.IP equals x *)
 Definition findByIP (ch : nat) (t : list lease) (x : ip) : option lease :=
@@ -291,7 +316,7 @@ Definition reply_dst (m : dmsg) : mac * ip :=
 Definition mk_reply (c : cfg) (t : rtype) (m : dmsg) (yi : ip) (b : bool) : reply :=
   let tcode := match t with ROffer => 2 | RAck => 5 | RNak => 6 end in
   let opts := match t with
-              | RNak => append_options [(54, ipb (c_hostip c)); (53, [tcode])] []   (* + client id 61; NAK options are not compared *)
+              | RNak => append_options [(54, ipb (n_server c b)); (53, [tcode])] []   (* + client id 61; NAK options are not compared *)
               | _ => append_options (n_options c b ++ [lease_time_opt; (53, [tcode])]) (m_prl m)
               end in
   mkReply t yi (m_xid m) (m_chaddr m) opts (fst (reply_dst m)) (snd (reply_dst m)).
@@ -410,15 +435,19 @@ Definition do_ack (c : cfg) (now : Z) (m : dmsg) (s : dstate) (l : lease) : dsta
   let s' := put s l3 in
   (set_ss s' (dhcp_update (ss s') (l_mac l3) (l_ip l3)), Some (mk_reply c RAck m yi (l_net2 l3))).
 
-Definition handleRequest (c : cfg) (now : Z) (s : dstate) (m : dmsg) : dstate * option reply :=
-  let k := getcid m in
+(* the kind of REQUEST and the address it is about *)
+Definition classify (m : dmsg) : reqop * ip :=
   let req0 := match m_req m with Some r => r | None => 0 end in
   let sid := match m_sid m with Some r => r | None => 0 end in
-  let '(oper, req) :=
-    if negb (sid =? 0) then (Selecting, req0)
-    else if (req0 =? 0) && negb (m_src m =? ip_bcast) then (Renewing, m_ciaddr m)
-    else if (req0 =? 0) then (Rebinding, m_ciaddr m)
-    else (Rebooting, req0) in
+  if negb (sid =? 0) then (Selecting, req0)
+  else if (req0 =? 0) && negb (m_src m =? ip_bcast) then (Renewing, m_ciaddr m)
+  else if (req0 =? 0) then (Rebinding, m_ciaddr m)
+  else (Rebooting, req0).
+
+Definition handleRequest (c : cfg) (now : Z) (s : dstate) (m : dmsg) : dstate * option reply :=
+  let k := getcid m in
+  let sid := match m_sid m with Some r => r | None => 0 end in
+  let '(oper, req) := classify m in
   if req =? 0 then (s, None) else
   let captured := sess_captured (ss s) (m_chaddr m) in
   let '(s1, l) := findOrCreate c s k (m_chaddr m) in
@@ -496,3 +525,65 @@ Fixpoint run (c : cfg) (s : dstate) (h : list ((ip -> nat) * op)) : dstate * lis
       let '(s2, rps) := run c s1 r in
       (s2, rp :: rps)
   end.
+
+(* ---------------------------------------------------------------- *)
+(* restart on the lease file the previous handler left behind *)
+
+(* saveConfig runs in New, at the end of every ACK and (fix 9517ed8) wherever a binding is dropped:
+   findOrCreate replacing a lease, DISCOVER deleting the lease of an exhausted pool, SELECT for
+   another server freeing the lease, DECLINE, MinuteTicker freeing a lease.  Between a save inside a
+   handler and its end no lease enters or leaves state Allocated without another save, so the file
+   holds the table as it was at the end of the last step that saved. *)
+Definition replaces (c : cfg) (s0 : dstate) (m : dmsg) : bool :=
+  match tget (getcid m) (tbl s0) with
+  | Some l => negb (Bool.eqb (l_net2 l) (sess_captured (ss s0) (m_chaddr m)) && (l_mac l =? m_chaddr m))
+  | None => false
+  end.
+Definition step_saves (c : cfg) (s : dstate) (o : op) (rp : option reply) : bool :=
+  match o with
+  | ODiscover _ m => replaces c (parse_effect c s m) m || match rp with None => true | Some _ => false end
+  | ORequest _ m =>
+      let s0 := parse_effect c s m in
+      let '(oper, req) := classify m in
+      if req =? 0 then false else
+      replaces c s0 m
+      || match rp with Some rr => match r_type rr with RAck => true | _ => false end | None => false end
+      || match oper with
+         | Selecting =>
+             let sid := match m_sid m with Some r => r | None => 0 end in
+             let '(_, l) := findOrCreate c s0 (getcid m) (m_chaddr m) in
+             negb (sid =? n_server c (sess_captured (ss s0) (m_chaddr m))) && negb (lstate_eqb (l_state l) SDiscover)
+         | _ => false
+         end
+  | ODecline m =>
+      let s0 := parse_effect c s m in
+      let '(_, l) := findOrCreate c s0 (getcid m) (m_chaddr m) in
+      replaces c s0 m
+      || (oeqb (Some (n_server c (l_net2 l))) (m_sid m) && oeqb (l_ip l) (m_req m) && (l_mac l =? m_chaddr m))
+  | ORelease m => replaces c (parse_effect c s m) m
+  | OTick now => existsb (fun l => negb (lstate_eqb (l_state l) SFree) && (l_exp l <? now)%Z) (tbl s)
+  | _ => false
+  end.
+
+Fixpoint run_saving (c : cfg) (s : dstate) (saved : list lease) (h : list ((ip -> nat) * op))
+  : dstate * list lease :=
+  match h with
+  | [] => (s, saved)
+  | (ch, o) :: r =>
+      let '(s1, rp) := step c ch s o in
+      run_saving c s1 (if step_saves c s o rp then tbl s1 else saved) r
+  end.
+
+(* saveConfig writes the acknowledged leases; loadByteArray restores those whose address lies in the
+   file's net1 and whose client id is not empty, all pointing at net1 (nobody is captured in a new session) *)
+Definition restore (cL : cfg) (saved : list lease) : list lease :=
+  map (fun l => mkLease (l_cid l) SAllocated (l_mac l) (l_ip l) (l_offer l) (l_xid l) false (l_exp l))
+      (filter (fun l => lstate_eqb (l_state l) SAllocated
+                        && match l_ip l with Some x => n_contains cL false x | None => false end
+                        && negb (l_cid l =? 1)) saved).
+
+(* (Config).New of configuration cB on that file: configuration in force and initial state *)
+Definition restart_state (file : subcfg) (cB : cfg) (saved : list lease) : dstate :=
+  let cL := loaded_cfg file cB in
+  if sub_changed (wanted cB) file then init cL
+  else mkSt (restore cL saved) (n_first cL false) (n_first cL true) (sess_init cL).
